@@ -200,6 +200,13 @@ func HandleSendInstantMsg(cc *hotline.ClientConn, t *hotline.Transaction) (res [
 
 var fileTypeFLDR = [4]byte{0x66, 0x6c, 0x64, 0x72}
 
+// isFileRoot reports whether fullPath addresses the client's file root itself.  The fork side-files of an entry
+// (.info_<name>, .rsrc_<name>, <name>.incomplete) live next to it; for the root that is outside the root, so requests
+// that read or write an entry's forks must not be aimed at the root.
+func isFileRoot(cc *hotline.ClientConn, fullPath string) bool {
+	return filepath.Clean(fullPath) == filepath.Clean(cc.FileRoot())
+}
+
 func HandleGetFileInfo(cc *hotline.ClientConn, t *hotline.Transaction) (res []hotline.Transaction) {
 	fileName := t.GetField(hotline.FieldFileName).Data
 	filePath := t.GetField(hotline.FieldFilePath).Data
@@ -207,6 +214,10 @@ func HandleGetFileInfo(cc *hotline.ClientConn, t *hotline.Transaction) (res []ho
 	fullFilePath, err := hotline.ReadPath(cc.FileRoot(), filePath, fileName)
 	if err != nil {
 		return res
+	}
+
+	if isFileRoot(cc, fullFilePath) {
+		return cc.NewErrReply(t, "Cannot get info for the file root.")
 	}
 
 	fw, err := hotline.NewFileWrapper(cc.Server.FS, fullFilePath, 0)
@@ -256,6 +267,10 @@ func HandleSetFileInfo(cc *hotline.ClientConn, t *hotline.Transaction) (res []ho
 	fullFilePath, err := hotline.ReadPath(cc.FileRoot(), filePath, fileName)
 	if err != nil {
 		return res
+	}
+
+	if isFileRoot(cc, fullFilePath) {
+		return cc.NewErrReply(t, "Cannot modify the file root.")
 	}
 
 	fi, err := cc.Server.FS.Stat(fullFilePath)
@@ -353,6 +368,10 @@ func HandleDeleteFile(cc *hotline.ClientConn, t *hotline.Transaction) (res []hot
 		return res
 	}
 
+	if isFileRoot(cc, fullFilePath) {
+		return cc.NewErrReply(t, "Cannot delete the file root.")
+	}
+
 	hlFile, err := hotline.NewFileWrapper(cc.Server.FS, fullFilePath, 0)
 	if err != nil {
 		return res
@@ -389,6 +408,10 @@ func HandleMoveFile(cc *hotline.ClientConn, t *hotline.Transaction) (res []hotli
 	filePath, err := hotline.ReadPath(cc.FileRoot(), t.GetField(hotline.FieldFilePath).Data, t.GetField(hotline.FieldFileName).Data)
 	if err != nil {
 		return res
+	}
+
+	if isFileRoot(cc, filePath) {
+		return cc.NewErrReply(t, "Cannot move the file root.")
 	}
 
 	fileNewPath, err := hotline.ReadPath(cc.FileRoot(), t.GetField(hotline.FieldFileNewPath).Data, nil)
@@ -1286,6 +1309,10 @@ func HandleDownloadFile(cc *hotline.ClientConn, t *hotline.Transaction) (res []h
 	fullFilePath, err := hotline.ReadPath(cc.FileRoot(), filePath, fileName)
 	if err != nil {
 		return res
+	}
+
+	if isFileRoot(cc, fullFilePath) {
+		return cc.NewErrReply(t, "Cannot download the file root as a file.")
 	}
 
 	hlFile, err := hotline.NewFileWrapper(cc.Server.FS, fullFilePath, dataOffset)
